@@ -46,11 +46,11 @@ class _BarChartXmlWriter''')],
             **{
                 "nsdecls": "",
                 "values_ref": self._series.values_ref,
-                "number_format": self._series.number_format,''', '''        return self._val_tmpl.replace("                <c:formatCode>{number_format}</c:formatCode>\\n", "").format(
+                "number_format": escape(self._series.number_format),''', '''        return self._val_tmpl.replace("                <c:formatCode>{number_format}</c:formatCode>\\n", "").format(
             **{
                 "nsdecls": "",
                 "values_ref": self._series.values_ref,
-                "number_format": self._series.number_format,''')],
+                "number_format": escape(self._series.number_format),''')],
      "ANALYSIS"),
     ("twin-different-source", "tx element twin takes the name from a different attribute than tx_xml",
      [(X, '''                "wksht_ref": self._series.name_ref,
